@@ -1021,7 +1021,7 @@ def check(prop, tier, replay=None):
 
     # ---- leg T: explorer schedules
     t0 = time.time()
-    n = {"quick": 500, "thorough": 6000}[tier]
+    n = {"quick": 500, "thorough": 6000 if prop != "X03" else 2000}[tier]      # X03 is an extra: a thorough tier that ends within the hour
     scs = [rand_scenario(rng, tier, prop) for _ in range(n)]
     if prop == "C14":
         # fault enumeration: one base configuration, the stop injected at every step index
@@ -1058,7 +1058,7 @@ def check(prop, tier, replay=None):
             continue
         tiny.append(dict(pat=pat, B=1, sr=10, sw=2, ch=1, p=(1, 2, 0, False, False), obs=obs_kinds, saver=saver, cache_blocks=1, stop_after=stop,
                          tail=1, silence=0.0, validator="custom", max_steps=100000))
-    cap = 260 if tier == "quick" else 12000
+    cap = 260 if tier == "quick" else (12000 if prop != "X03" else 3000)
     xruns = []
     complete = []
     if tiny:
